@@ -218,21 +218,34 @@ def stepRQ (real : Bool) (pool types ents : String) : String :=
                 L<u> U<u> C<u> queue.Lock / Unlock / Cancel(u)
                 x<u>:<S>:<p>   somebody else changes state and priority of u at the controller
                 f<u>           the next PUT runtime_status for u fails
-    the type chooser is the real ChooseInstanceType over the table t0,t1,t2 with 1,2,4 VCPUs; the
-    container asks for `need` VCPUs.
+    the type chooser is the dispatcher's typeChooser = ChooseInstanceType over the table t0..t5
+    (`cqTable`: 1,2,4 VCPUs on demand and preemptible, differing RAM and scratch); `need` < 256 encodes
+    the container's constraint vector (`cqCtr`: VCPUs, preemptible, a tmp mount, RAM).
     -> cache=<u:S:prio:type,...>;ctl0=<u:S:prio:flags,...>;tr=<trace>;L=<Lock calls>;ctl=<...>;cache1=<...>
        (cache and ctl0 before the pass, ctl and cache1 after it), alternatives joined by "|"
 -/
 open ArvVerif.C16.Q
 
 def cqTable : List IType :=
-  [ { name := 0, vcpus := 1, ram := 1000, scratch := 0, price := 64, preemptible := false },
-    { name := 1, vcpus := 2, ram := 1000, scratch := 0, price := 128, preemptible := false },
-    { name := 2, vcpus := 4, ram := 1000, scratch := 0, price := 256, preemptible := false } ]
+  [ { name := 0, vcpus := 1, ram := 1000, scratch := 1000, price := 64, preemptible := false },
+    { name := 1, vcpus := 2, ram := 1000, scratch := 1000, price := 128, preemptible := false },
+    { name := 2, vcpus := 4, ram := 2000, scratch := 2000, price := 192, preemptible := false },
+    { name := 3, vcpus := 1, ram := 1000, scratch := 1000, price := 16, preemptible := true },
+    { name := 4, vcpus := 2, ram := 2000, scratch := 1000, price := 32, preemptible := true },
+    { name := 5, vcpus := 4, ram := 2000, scratch := 3000, price := 48, preemptible := true } ]
 
+/-- the container a `need` code stands for: bits 0-3 VCPUs, bit 4 preemptible, bits 5-6 a tmp mount
+of s·1000 bytes, bit 7 RAM 1900 (· 100/95 = 2000); `need = 0` is the all-zero container -/
+def cqCtr (need : Nat) : Ctr :=
+  let s := (need / 32) % 4
+  { vcpus := (need % 16 : Nat), ram := (((need / 128) % 2) * 1900 : Nat), keepCacheRAM := 0,
+    preemptible := (need / 16) % 2 == 1, image := [],
+    mounts := if s == 0 then [] else [{ kind := tmpKind, capacity := ((s * 1000 : Nat) : Int) }] }
+
+/-- the dispatcher's typeChooser: ChooseInstanceType over the cluster's table (prices are distinct, so
+the map order does not matter) -/
 def cqChoose (need : Nat) : Option Nat :=
-  let c : Ctr := { vcpus := need, ram := 1, keepCacheRAM := 0, preemptible := false, image := [], mounts := [] }
-  match chooseWith cqTable (availSorted cqTable) 0 c with
+  match chooseWith cqTable (availSorted cqTable) 0 (cqCtr need) with
   | .ok it => some it.name
   | _ => none
 
@@ -250,6 +263,7 @@ def parseCRec? (s : String) : Option CRec :=
     let st ← parseQState? st
     let p ← p.toInt?
     let need ← need.toNat?
+    if need > 255 then none
     if fl != "-" && fl != "m" then none
     if fl == "m" && !(st == .locked || st == .running) then none
     pure { uuid := u, st := st, prio := p, need := need, mine := fl == "m", err := false }
